@@ -38,5 +38,5 @@ fn run_shard(ctx: &ShardCtx) {
         max_ops: ctx.tier.pick(40, 100),
         quotes: true,
     };
-    run_lockstep_shard(ctx, "flush", "C15", ctx.tier.pick(150_000, 2_000_000), opts, &["raw", "enum", "group"], FLAGS);
+    run_lockstep_shard(ctx, "flush", "C15", ctx.tier.pick(1_500_000, 15_000_000), opts, &["raw", "enum", "group"], FLAGS);
 }
